@@ -98,6 +98,16 @@ CHECKS = {
              "container are compared with the model; any sanitizer report or crash is a violation.",
         note="the Python models of std::vector/map/string semantics are mine; range views only while the container is not structurally modified",
         design="4/C12"),
+    "C13": dict(
+        engine="tsan-stress",
+        category="exploration",
+        technique="randomized concurrency stress testing under ThreadSanitizer: seeded multi-thread workloads on one engine with known expected results, repeated with seeded yields",
+        text="Seeded workloads run 2-16 threads against one engine (shared function calls, same-named locals, thread-unique and deliberately contended "
+             "registrations from script and C++, conversions, use() of one file, get_state); ThreadSanitizer must stay silent, every result must equal "
+             "its arithmetically known value, nothing registered may be lost, exactly one of several simultaneous registrations of one name may "
+             "succeed, and the used file must run once. A failing workload is replayed 5 times and reported when it fails at least twice.",
+        note="schedules are sampled, not enumerated (stated weakness of the technique for this property); TSan sees a race on any schedule where the two accesses are unordered, but not between two cold paths that are never executed concurrently",
+        design="4/C13"),
     "C14": dict(
         engine="hypothesis-runner",
         category="exploration",
@@ -199,7 +209,9 @@ def main():
         },
         "engines": [
             {"name": "libfuzzer", "path": "fuzz/", "serves_properties": ["C01", "C16", "C18"], "kind_free_text": "libFuzzer targets with in-target oracles (clang -fsanitize=fuzzer,address,undefined)"},
-            {"name": "hypothesis-runner", "path": "runner/ + props/", "serves_properties": [], "kind_free_text": "Hypothesis strategies and Python models driving a persistent ASan-instrumented C++ runner over a pipe"},
+            {"name": "tsan-stress", "path": "threads/", "serves_properties": ["C13"], "kind_free_text": "seeded multi-thread workloads under ThreadSanitizer"},
+            {"name": "rapidcheck+enumerator", "path": "arith/", "serves_properties": ["C05"], "kind_free_text": "in-process differential against natively compiled arithmetic; rapidcheck for random operands"},
+            {"name": "hypothesis-runner", "path": "runner/ + props/", "serves_properties": ["C02", "C03", "C04", "C06", "C07", "C08", "C09", "C10", "C11", "C12", "C14", "C15", "C16", "C17", "C18", "C19", "C20"], "kind_free_text": "Hypothesis strategies and Python models driving a persistent ASan-instrumented C++ runner over a pipe"},
         ],
         "checks": checks,
         "not_applicable": [{"property_id": p, "reason": PENDING_REASON} for p in ALL if p not in CHECKS],
